@@ -180,7 +180,189 @@ def gen_program(seed, size=12, features=None):
         out_a.append({"k": "print", "e": {"k": "var", "n": n}})
         out_s.append("    " * ind + "io::Println(%s);" % n)
 
+    def V(n):
+        return {"k": "var", "n": n}
+
+    def ext_stmt(sc_, out_a, ind, depth):
+        """Compound assignment, optionals, results with catch, function literals, methods, break / continue."""
+        ints = [x for x in sc_.of(lambda ty: ty[0] == "int")]
+        free = [x for x in ints if x not in sc_.frozen]
+        kinds = []
+        if free and g.feat.get("opasg", True):
+            kinds += ["opasg", "opasg"]
+        if g.feat.get("opt", True):
+            kinds.append("opt")
+        if g.feat.get("res", True) and ints:
+            kinds.append("res")
+        if g.feat.get("clo", True) and ints:
+            kinds.append("clo")
+        if g.feat.get("meth", True) and sc_.of(lambda ty: ty[0] == "struct"):
+            kinds += ["meth", "meth"]
+        if g.feat.get("brk", True) and depth > 0:
+            kinds.append("brk")
+        if not kinds:
+            return False
+        kind = r.choice(kinds)
+        if kind == "opasg":
+            # target: a variable, a struct field or an array element
+            tg = [("var", n) for n in free]
+            for n in sc_.of(lambda ty: ty[0] == "struct"):
+                tg.append(("fld", n))
+            for n in sc_.of(lambda ty: ty[0] in ("farr", "darr") and ty[1][2] <= 64):
+                tg.append(("idx", n))       # compound assignment to a 128/256-bit element: recorded finding (witness in corpus)
+            w, n = r.choice(tg)
+            if w == "var":
+                t, lv = sc_.vars[n][1], V(n)
+            elif w == "fld":
+                fi = r.randint(0, 1)
+                t, lv = g.structs[sc_.vars[n][1]][fi], {"k": "field", "e": V(n), "f": "AB"[fi]}
+            else:
+                _, t, ln = sc_.vars[n]
+                lv = {"k": "index", "e": V(n), "i": lit_ast(BYNAME["i32"], r.randint(-ln, ln - 1))}
+            if r.random() < 0.3 and not (w == "idx" and sc_.vars[n][0] == "darr"):   # d[i]++ on a dynamic array: recorded finding
+                out_a.append({"k": "opassign", "op": r.choice("+-"), "lv": lv, "e": lit_ast(t, 1), "ty": tyj(t), "incdec": True})
+            else:
+                op = r.choice(["+", "-", "*", "+", "-", "/", "%"])
+                if op in "/%":
+                    a = lit_ast(t, r.choice([1, 2, 3, 5, 7]))
+                else:
+                    a, _ = int_expr(t, sc_, 1)
+                    if a["k"] == "int" and a["neg"]:
+                        a = lit_ast(t, 3)
+                out_a.append({"k": "opassign", "op": op, "lv": lv, "e": a, "ty": tyj(t)})
+            out_a.append({"k": "print", "e": lv})
+            return True
+        if kind == "opt":
+            opts = sc_.of(lambda ty: ty[0] == "opt")
+            if not opts or r.random() < 0.4:
+                t = g.pick_int()
+                n = g.fresh("o")
+                if r.random() < 0.4:
+                    e = {"k": "none"}
+                else:
+                    a, _ = int_expr(t, sc_, 1)
+                    e = {"k": "some", "e": a}
+                out_a.append({"k": "let", "n": n, "dty": t[0] + "?", "e": e})
+                sc_.vars[n] = ("opt", t)
+            else:
+                n = r.choice(opts)
+                t = sc_.vars[n][1]
+                if n not in sc_.frozen:
+                    if r.random() < 0.35:
+                        out_a.append({"k": "assign", "lv": V(n), "e": {"k": "none"}})
+                    else:
+                        a, _ = int_expr(t, sc_, 1)
+                        out_a.append({"k": "assign", "lv": V(n), "e": {"k": "some", "e": a}})
+            d = g.fresh("d")
+            out_a.append({"k": "let", "n": d, "dty": t[0], "e": lit_ast(t, g.boundary(t))})
+            sc_.vars[d] = ("int", t)
+            if r.random() < 0.5:
+                out_a.append({"k": "print", "e": {"k": "coal", "e": V(n), "d": V(d)}})
+            else:
+                m = g.fresh()
+                out_a.append({"k": "let", "n": m, "dty": t[0], "e": {"k": "coal", "e": V(n), "d": V(d)}})
+                sc_.vars[m] = ("int", t)
+                out_a.append({"k": "print", "e": V(m)})
+            if r.random() < 0.6:
+                c = {"k": "isnone", "e": V(n), "neg": r.random() < 0.5}
+                out_a.append({"k": "if", "c": c, "t": [{"k": "print", "e": V(d)}], "e": []})
+            return True
+        if kind == "res":
+            n = r.choice(ints)
+            t = sc_.vars[n][1]
+            f = "chk_" + t[0]
+            if f not in g.funcs:
+                # err when the flag is set: the error carries x + 1, the ok value x
+                g.funcs[f] = {"params": ["x", "bad"], "ptys": [t[0], "bool"], "rty": "%s ! %s" % (t[0], t[0]), "body": [
+                    {"k": "if", "c": V("bad"), "t": [
+                        {"k": "let", "n": "e", "dty": t[0], "e": {"k": "bin", "op": "+", "l": V("x"), "r": lit_ast(t, 1), "ty": tyj(t)}},
+                        {"k": "reterr", "e": V("e")}], "e": []},
+                    {"k": "retok", "e": V("x")}]}
+            flag, _ = bool_expr(sc_, 1)
+            d = g.fresh("d")
+            out_a.append({"k": "let", "n": d, "dty": t[0], "e": lit_ast(t, g.boundary(t))})
+            sc_.vars[d] = ("int", t)
+            m = g.fresh()
+            call = {"k": "call", "f": f, "args": [V(n), flag]}
+            if r.random() < 0.5:
+                e = {"k": "catch", "call": call, "n": "e", "h": [], "fb": V(d)}
+            else:
+                en = g.fresh("e")
+                e = {"k": "catch", "call": call, "n": en, "h": [{"k": "print", "e": V(en)}], "fb": V(d), "ind": ind + 1}
+            out_a.append({"k": "let", "n": m, "dty": t[0], "e": e})
+            sc_.vars[m] = ("int", t)
+            out_a.append({"k": "print", "e": V(m)})
+            return True
+        if kind == "clo":
+            cap = r.choice(ints)
+            t = sc_.vars[cap][1]
+            cn = g.fresh("f")
+            op = r.choice(["+", "-", "*"])
+            body = [{"k": "let", "n": "q", "dty": t[0], "e": {"k": "bin", "op": op, "l": V(cap), "r": V("y"), "ty": tyj(t)}}]
+            if r.random() < 0.5:
+                body.append({"k": "print", "e": V("q")})
+            body.append({"k": "ret", "e": V("q")})
+            out_a.append({"k": "let", "n": cn, "dty": "", "e": {"k": "fnlit", "params": ["y"], "ptys": [t[0]], "rty": t[0], "body": body, "ind": ind + 1}})
+            sc_.frozen.add(cap)          # a captured variable is never changed afterwards
+            sc_.vars[cn] = ("clo", t)
+            for _ in range(r.randint(1, 2)):
+                others = [x for x in sc_.of(lambda ty: ty == ("int", t))]
+                a = V(r.choice(others)) if others and r.random() < 0.7 else lit_ast(t, abs(g.boundary(t)) % 100)
+                m = g.fresh()
+                out_a.append({"k": "let", "n": m, "dty": t[0], "e": {"k": "callv", "f": cn, "args": [a]}})
+                sc_.vars[m] = ("int", t)
+                out_a.append({"k": "print", "e": V(m)})
+            return True
+        if kind == "meth":
+            n = r.choice(sc_.of(lambda ty: ty[0] == "struct"))
+            sname = sc_.vars[n][1]
+            ft = g.structs[sname]
+            bump, geta = sname + ".bump", sname + ".sum"
+            if bump not in g.funcs:
+                g.funcs[bump] = {"params": ["p", "d"], "ptys": ["&'" + sname, ft[0][0]], "body": [
+                    {"k": "assign", "lv": {"k": "field", "e": V("p"), "f": "A"},
+                     "e": {"k": "bin", "op": "+", "l": {"k": "field", "e": V("p"), "f": "A"}, "r": V("d"), "ty": tyj(ft[0])}}]}
+                g.funcs[geta] = {"params": ["p"], "ptys": [sname], "rty": ft[1][0], "body": [
+                    {"k": "assign", "lv": {"k": "field", "e": V("p"), "f": "B"},
+                     "e": {"k": "bin", "op": "*", "l": {"k": "field", "e": V("p"), "f": "B"}, "r": lit_ast(ft[1], 2), "ty": tyj(ft[1])}},
+                    {"k": "ret", "e": {"k": "field", "e": V("p"), "f": "B"}}]}
+            if r.random() < 0.5:
+                a, _ = int_expr(ft[0], sc_, 1)
+                out_a.append({"k": "expr", "e": {"k": "call", "f": bump, "method": True, "args": [{"k": "addr", "e": V(n), "mut": True}, a]}})
+            else:
+                m = g.fresh()
+                out_a.append({"k": "let", "n": m, "dty": ft[1][0], "e": {"k": "call", "f": geta, "method": True, "args": [V(n)]}})
+                sc_.vars[m] = ("int", ft[1])
+                out_a.append({"k": "print", "e": V(m)})
+            for fi in range(2):
+                out_a.append({"k": "print", "e": {"k": "field", "e": V(n), "f": "AB"[fi]}})
+            return True
+        if kind == "brk":
+            # let i = 0; while i < N { i = i + 1; if c { continue / break; } body }
+            i = g.fresh("i")
+            t = BYNAME["i32"]
+            lim = r.randint(2, 5)
+            out_a.append({"k": "let", "n": i, "e": lit_ast(t, 0), "dty": "i32"})
+            inner = Scope(g)
+            inner.vars = dict(sc_.vars)
+            inner.vars[i] = ("int", t)
+            inner.frozen = set(sc_.frozen) | {i}
+            ba = [{"k": "assign", "lv": V(i), "e": {"k": "bin", "op": "+", "l": V(i), "r": lit_ast(t, 1), "ty": tyj(t)}}]
+            cut = {"k": "cmp", "op": r.choice(["==", ">", ">="]), "l": V(i), "r": lit_ast(t, r.randint(1, lim))}
+            ba.append({"k": "if", "c": cut, "t": [{"k": r.choice(["break", "continue"])}], "e": []})
+            ba.append({"k": "print", "e": V(i)})
+            dummy = []
+            for _ in range(r.randint(0, 2)):
+                stmt(inner, ba, dummy, ind + 1, depth - 1)
+            out_a.append({"k": "while", "c": {"k": "cmp", "op": "<", "l": V(i), "r": lit_ast(t, lim)}, "b": ba})
+            sc_.vars[i] = ("int", t)
+            sc_.frozen.add(i)
+            return True
+        return False
+
     def stmt(sc_, out_a, out_s, ind, depth):
+        if g.feat.get("ext", True) and r.random() < 0.24 and ext_stmt(sc_, out_a, ind, depth):
+            return
         k = r.random()
         pad = "    " * ind
         ints = sc_.of(lambda ty: ty[0] == "int")
@@ -512,6 +694,13 @@ def rexpr(e):
             rc = rc["e"] if rc["k"] == "addr" else rc
             return "%s.%s(%s)" % (rexpr(rc), e["f"].split(".")[1], ", ".join(rexpr(a) for a in e["args"][1:]))
         return "%s(%s)" % (e["f"], ", ".join(rexpr(a) for a in e["args"]))
+    if k == "fnlit":
+        out = []
+        rblock(e["body"], e.get("ind", 2), out)
+        return "fn(%s)%s {\n%s\n%s}" % (", ".join("%s: %s" % (n, t) for n, t in zip(e["params"], e["ptys"])),
+                                          " -> " + e["rty"] if e.get("rty") else "", "\n".join(out), "    " * (e.get("ind", 2) - 1))
+    if k == "callv":
+        return "%s(%s)" % (e["f"], ", ".join(rexpr(a) for a in e["args"]))
     if k == "none":
         return "none"
     if k == "some":
@@ -537,8 +726,15 @@ def rblock(b, ind, out):
     pad = "    " * ind
     for s in b:
         k = s["k"]
-        if k == "let":
+        if k == "let" and not s["dty"]:
+            out.append(pad + "let %s := %s;" % (s["n"], rexpr(s["e"])))
+        elif k == "let":
             out.append(pad + "%s %s: %s = %s;" % ("const" if s.get("const") else "let", s["n"], s["dty"], rexpr(s["e"])))
+        elif k == "opassign":
+            if s.get("incdec"):
+                out.append(pad + "%s%s;" % (rexpr(s["lv"]), "++" if s["op"] == "+" else "--"))
+            else:
+                out.append(pad + "%s %s= %s;" % (rexpr(s["lv"]), s["op"], rexpr(s["e"])))
         elif k == "assign":
             out.append(pad + "%s = %s;" % (rexpr(s["lv"]), rexpr(s["e"])))
         elif k == "print":
